@@ -15,11 +15,12 @@ META = {
     "level_note": "Trusted: Coq kernel, extraction, OCaml drivers (hex conversion, the textual dump format, UTF-8 validity test, generators), Rust harness (dump_aiger reads the fields without public accessor -- bad, invariants, justice, fairness, name vectors -- from the Debug text of AIGERDetails). The models are hand-written; what ties them to the code is the differential run, not a proof about nom. Model vs. code: the ASCII branch reads a section before it runs the 'second definition' checks (the code interleaves them; only accept/reject is observable); Circuit::find_cycle is modelled by iterated marking (acyclic_b, same predicate); names are byte strings in the model, the code converts them with String::from_utf8_lossy -- names that are not valid UTF-8 are not compared (counted: aig_names_not_utf8); header counts size allocations in the code and list lengths in the model, inputs with numbers of 6+ digits are skipped in the differential streams (allocation failure for absurd counts is the recorded known finding); the u32 shift counter of usize_7bit and stack depth are not modelled (three probes S run the real parsers on inputs of depth 100000 in a thread with the default stack size). PARTIAL: the DIMACS SAT formats (sat/satx/sate/satex), variable-order / clause-tree preambles and the NNF reader have no model -- their totality is a mutation SEARCH under catch_unwind (release + debug profile), not a theorem; the 'no panic' half of the property for the modelled readers rests on the differential run too (the theorems are about the model). Defects found and fixed: TVBitVec (latch reset values; found by the field-by-field comparison with the model) -- /repo commit cc9131a, corpus/C18/f19-aiger-latch-reset-values.case; Circuit::find_cycle recursing once per gate of a chain (stack overflow on a valid 1.4 MB aag file; found while modelling it) -- /repo commit f0a4345, corpus/C18/f20-find-cycle-stack-depth.case. Recorded known finding: stack overflow for deeply nested order / clause trees and SAT formulas (probe op S, corpus/C18/stack-nesting-depth.case).",
 }
 ALLOWED_AXIOMS = ()
-MODEL_VOS = ["Base/Conv.vo", "IO/Circuit.vo", "IO/Aiger.vo", "IO/AigerParse.vo", "IO/DimacsParse.vo"]
+MODEL_VOS = ["Base/Conv.vo", "IO/Circuit.vo", "IO/Aiger.vo", "IO/AigerParse.vo", "IO/DimacsParse.vo",
+             "IO/TreeParse.vo", "IO/NnfParse.vo", "IO/DimacsSatParse.vo"]
 
 
 def build(ctx):
-    drv = vf.ocaml_build(ctx, "ExC18.v", "c18_main.ml", extra_ml=("c18p.ml",), model_vos=MODEL_VOS)
+    drv = vf.ocaml_build(ctx, "ExC18.v", "c18_main.ml", extra_ml=("c18p.ml", "c18q.ml"), model_vos=MODEL_VOS)
     bins = vf.cargo_build(["h_circ"])
     # the parser stream also runs with debug assertions and overflow checks
     dbg = vf.cargo_build(["h_circ"], profile="debug")
@@ -95,6 +96,11 @@ def handle_bad(ctx, binp, drv, cases, bad, profile):
         if typ.startswith("circ") or typ == "dangling":
             small, smsg = shrink_circ(ctx, binp, drv, header, ops[0], kind)
             ops, msg = [small], (smsg or msg)
+        elif typ == "fullmut":
+            # C18q: replay only the offending input (the driver quotes format, options and bytes)
+            m = re.search(r"fmt=(\S+) opts=(\d+) input=(\S+)", msg)
+            if m:
+                ops = [f"X {m.group(1)} {m.group(2)} {m.group(3)}"]
         elif typ in ("aigmut", "cnfmut"):
             # replay only the offending input (the driver quotes it)
             m = re.search(r"input=(\S+)", msg)
@@ -134,6 +140,9 @@ def run_shard(ctx, binp, dbg, drv, what, shard, nshards, extra_cases=()):
     if what == "aigwf":
         # well-formed problems generated and printed (aag + aig) by the extracted model
         rc, out = vf.sh([drv, "genaig", ctx.tier, str(ctx.seed + shard)])
+    elif what == "genq":
+        # C18q: well-formed NNF / SAT / CNF-with-trees files written by the extracted printers
+        rc, out = vf.sh([drv, "genq", ctx.tier, str(ctx.seed + shard)])
     else:
         rc, out = vf.sh([binp, "gen", ctx.tier, str(ctx.seed), str(shard), str(nshards), what])
     if rc != 0:
@@ -147,7 +156,7 @@ def run_shard(ctx, binp, dbg, drv, what, shard, nshards, extra_cases=()):
     vf.write_cases(cases_file, cases)
     env = {"VERIF_WORK": ctx.workdir}
     res = []
-    profiles = [("release", binp)] + ([("debug", dbg)] if what in ("parse", "aiger", "aigwf") else [])
+    profiles = [("release", binp)] + ([("debug", dbg)] if what in ("parse", "aiger", "aigwf", "treeq", "genq") else [])
     for prof, b in profiles:
         ok, bad = vf.lockstep(ctx, b, drv, cases_file, tag=tag + "-" + prof, env=env, timeout=3000)
         res.append((prof, ok, bad))
@@ -173,6 +182,9 @@ def run(ctx):
     # C18p: the model of the AIGER reader against the real parser
     jobs += [("aiger", s, max(1, nshards // 6)) for s in range(max(1, nshards // 6))]
     jobs += [("aigwf", s, 1) for s in range(4 if ctx.tier == "thorough" else 1)]
+    # C18q: the models of the NNF reader, the complete DIMACS reader and the order / clause trees
+    jobs += [("treeq", s, max(1, nshards // 4)) for s in range(max(1, nshards // 4))]
+    jobs += [("genq", s, 1) for s in range(4 if ctx.tier == "thorough" else 1)]
     total_ok = 0
     distinct = set()
     samples = []
@@ -194,7 +206,7 @@ def run(ctx):
                         # non-trivial: some gate has at least two literals
                         if any(len(g.split()) >= 3 for g in o.split("|")[1].split(";")):
                             distinct.add(hash(o))
-                    elif o[0] in "PQVADNM":
+                    elif o[0] in "PQVADNMXY":
                         distinct.add(hash(o))
             if s == 0:
                 k = len(cases)
